@@ -189,6 +189,13 @@ func c03(c *Ctx) {
 		w := core.CutReach(core.CutSpec{Fn: EV, From: found.call.Block(), Cut: func(b *ssa.BasicBlock, i int) bool { return g.Edge(core.EdgeFacts(b, i)) }, Target: core.SuccessTarget(EV, g.ErrOK)})
 		r.Check(w == nil, "R2.success-gates", ev+" era "+we.name+" verdict", p.Pos(found.call.Pos()), "the entry point succeeds only with this era's verdict", "the entry point can succeed without this era's validator having succeeded: "+p.PathString(w))
 	}
+	// pass-through wrappers of the dispatcher (a memoising or logging front) succeed only with
+	// the dispatcher's verdict for the same header and proof
+	passThroughWrappers(p, EV, 3, func(G *ssa.Function, call *ssa.Call) {
+		g := core.ErrNilGate("dispatcher", func(c2 *ssa.Call) bool { return c2 == call })
+		w := core.CutReach(core.CutSpec{Fn: G, Cut: func(b *ssa.BasicBlock, i int) bool { return g.Edge(core.EdgeFacts(b, i)) }, Target: core.SuccessTarget(G, g.ErrOK)})
+		r.Check(w == nil, "R2.success-gates", core.FuncName(G)+" wrapper-verdict", p.Pos(call.Pos()), "succeeds only with the verdict of "+core.FuncName(core.StaticCalleeFn(call))+" for the same arguments", "a wrapper of the header-proof validator can report success without the validator's verdict for this header and proof (e.g. a cached answer keyed by less than the whole input): "+p.PathString(w))
+	})
 	// duplicated constants
 	for _, grp := range []struct {
 		want  int64
@@ -599,4 +606,54 @@ func checkProofGetter(c *Ctx, f *ssa.Function, field string) {
 		}
 	}
 	c.R.Check(ok, "R3.merkle-arguments", core.FuncName(f)+" reads "+field, c.P.Pos(f.Pos()), "the accessor converts the "+field+" vector in order", "the accessor does not return the "+field+" vector of the proof (siblings of another branch or another order)")
+}
+
+// passThroughWrappers calls visit for every module function G that statically calls target (or,
+// up to depth levels, another such wrapper) handing its own parameters straight through and
+// that returns an error: G is a front of target and must not succeed on its own.
+func passThroughWrappers(p *core.Prog, target *ssa.Function, depth int, visit func(G *ssa.Function, call *ssa.Call)) {
+	level := []*ssa.Function{target}
+	seen := map[*ssa.Function]bool{target: true}
+	for d := 0; d < depth && len(level) > 0; d++ {
+		var next []*ssa.Function
+		for _, fn := range p.ModuleFuncs() {
+			if seen[fn] || core.ErrResultIndex(fn.Signature) < 0 {
+				continue
+			}
+			core.Calls(fn, func(ci ssa.CallInstruction) {
+				call, ok := ci.(*ssa.Call)
+				if !ok {
+					return
+				}
+				cal := core.StaticCalleeFn(call)
+				isT := false
+				for _, t := range level {
+					if cal == t {
+						isT = true
+					}
+				}
+				if !isT {
+					return
+				}
+				args := call.Call.Args
+				if cal.Signature.Recv() != nil && len(args) > 0 {
+					args = args[1:]
+				}
+				if len(args) == 0 {
+					return
+				}
+				for _, a := range args {
+					if _, isP := core.Unwrap(a).(*ssa.Parameter); !isP {
+						return
+					}
+				}
+				visit(fn, call)
+				if !seen[fn] {
+					seen[fn] = true
+					next = append(next, fn)
+				}
+			})
+		}
+		level = next
+	}
 }
